@@ -16,7 +16,7 @@ RULE = (
     "parameters and invocation operands); non-trivial = >=1 non-barrier gate and >=2 qubits; distinct by gate list"
 )
 PREIMPORT = ["qiskit", "qiskit.quantum_info", "cirq", "sympy.physics.quantum.qapply", "sympy.physics.quantum.represent", "sympy.physics.quantum.gate"]
-DECIDING = ["qiskit_compared", "cirq_compared", "sympy_compared", "qasm_parsed"]
+DECIDING = ["qiskit_compared", "qiskit_placed_compared", "cirq_compared", "cirq_placed_compared", "sympy_compared", "qasm_parsed"]
 ASSUMPTIONS = ["qiskit Operator / cirq.unitary / sympy represent are trusted as simulators of the exported objects", "QASM angles are printed with two decimals by design: parameters are compared within 0.005",
                "an explicit 'Gate not handled' exception marks a gate outside that exporter's exportable set (counted, not a violation) except for barriers, which are no-ops",
                "pennylane and qutip_qip are not installed: those exporters cannot be executed and are outside the claim"]
@@ -128,6 +128,21 @@ def check(case):
                 cnt["qiskit_compared"] = cnt.get("qiskit_compared", 0) + 1
                 if ex.num_qubits != nq or not statevec.same_unitary(U, UQ):
                     fail(f"qiskit_{mode}", "qiskit export has a different unitary / qubit count")
+                if mode == "gate" and nq >= 2:
+                    # the exported gate appended to a larger circuit on a permuted qubit list
+                    from qiskit import QuantumCircuit
+
+                    perm = list(reversed(range(nq)))
+                    big = QuantumCircuit(nq)
+                    big.append(ex, perm)
+                    UB = Operator(big).data
+                    P = np.zeros((1 << nq, 1 << nq))
+                    for x in range(1 << nq):
+                        y = sum(((x >> i) & 1) << perm[i] for i in range(nq))
+                        P[y, x] = 1
+                    cnt["qiskit_placed_compared"] = cnt.get("qiskit_placed_compared", 0) + 1
+                    if not statevec.same_unitary(P @ U @ P.T, UB):
+                        fail("qiskit_gate_placement", f"qiskit gate appended on qubits {perm} does not act on them in the order given")
             except Exception as e:
                 if _not_handled(e):
                     cnt["qiskit_not_exportable"] = cnt.get("qiskit_not_exportable", 0) + 1
@@ -157,6 +172,17 @@ def check(case):
                 cnt["cirq_compared"] = cnt.get("cirq_compared", 0) + 1
                 if not statevec.same_unitary(U, _bitrev(UC, nq)):
                     fail(f"cirq_{mode}", "cirq export has a different unitary")
+                if mode == "gate" and nq >= 2:
+                    # the exported gate placed on a register that is not in the framework's own sort order: qubit i of the
+                    # circuit is the i-th qubit it is placed on
+                    for reg in ([cirq.LineQubit(k) for k in reversed(range(nq))], [cirq.NamedQubit(nm) for nm in ["b", "_ret", "a", "anc_0", "c", "Z", "q10", "q2"][:nq]]):
+                        if len(reg) < nq:
+                            continue
+                        c2 = cirq.Circuit(ex().on(*reg), [cirq.I(q) for q in reg])
+                        U2 = c2.unitary(qubit_order=reg)
+                        cnt["cirq_placed_compared"] = cnt.get("cirq_placed_compared", 0) + 1
+                        if not statevec.same_unitary(U, _bitrev(U2, nq)):
+                            fail("cirq_gate_placement", f"cirq gate placed on {reg} does not act on them in the order given")
             except Exception as e:
                 if _not_handled(e) and "Barrier" in str(e):
                     fail(f"cirq_{mode}_barrier", f"{type(e).__name__}: {e}", pred="c13_cirq_barrier")
